@@ -1509,9 +1509,11 @@ impl<'arena> PrettyFormatter<'arena> {
         let source = self.source?;
         let (outer_start, _) = self.spans[&EntityId::Term(term)].get_cursor1();
         let (inner_start, inner_end) = self.spans[&EntityId::Term(inner)].get_cursor1();
+        // The annotation is closed by the first `]`: a format directive contains
+        // none, while the gap before the payload may (inside a comment).
         let annotation_end = source
             .get(outer_start..inner_start)?
-            .rfind(']')?
+            .find(']')?
             .checked_add(outer_start)?
             .checked_add(1)?;
         let boundary = source.get(annotation_end..inner_start)?;
